@@ -463,7 +463,12 @@ func (rb *rbuilder) genTest(o *Obligation, vals map[int]string) (string, string,
 	for _, rn := range resNames {
 		fmt.Fprintf(&body, "\t_ = %s\n", rn)
 	}
-	body.WriteString("\tif panicked { fmt.Println(\"REPLAY-REPRODUCED: panic:\", pv); return }\n")
+	if strings.HasPrefix(o.Kind, "panic") || o.Kind == "nooverflow" || o.Kind == "call.pre" {
+		body.WriteString("\tif panicked { fmt.Println(\"REPLAY-REPRODUCED: panic:\", pv); return }\n")
+	} else {
+		// a panic is not the failure of a postcondition, invariant or frame obligation: it does not replay those
+		body.WriteString("\tif panicked { fmt.Println(\"REPLAY-NOT-REPRODUCED: the call panicked before the obligation could be observed:\", pv); return }\n")
+	}
 	if post != nil {
 		if postOK {
 			fmt.Fprintf(&body, "\tif !(%s) { fmt.Println(\"REPLAY-REPRODUCED: postcondition violated:\", %q", postGo, post.Src)
